@@ -88,7 +88,7 @@ pub fn record_cont(output: &str) {
     quiet_panics();
     let mut out = Out::create(output);
     let mut r = rng(505);
-    let n = if thorough() { 100_000 } else { 4_000 };
+    let n = if thorough() { 100_000 } else { 8_000 };
     for k in 0..n {
         let mut p = robots::geometry(robots::GEOMETRY_CLASSES[k % robots::GEOMETRY_CLASSES.len()], &mut r);
         let offc = ["zero", "quarter", "random"][k % 3];
